@@ -264,7 +264,7 @@ def par_5(ctx, rep):
             rep.ob('PAR-5', rel, q, 'missing-final-newline shortcut: <entry>.dfa = <plan>.next_dfa', ok,
                    'missing-final-newline shortcut is not restricted to simple_stmt / accepting target state / no pushes')
         elif f.key in helpers and "arcs['stmt']" in val:
-            ok = guarded_by_eq(cfg, node, 'nonterminal', 'suite')
+            ok = guarded_by_eq(cfg, node, 'nonterminal', 'suite') or guarded_by_eq(cfg, node, 'from_rule', 'suite')
             rep.ob('PAR-5', rel, q, "forced stmt arc: <entry>.dfa = <entry>.dfa.arcs['stmt']", ok, 'forced stmt arc outside a suite stack entry')
         else:
             rep.ob('PAR-5', rel, q, norm(n), False, 'parser state forced outside plan application (not an enumerated recovery shortcut)')
@@ -463,9 +463,18 @@ def par_7(ctx, rep):
     rep.ob('PAR-7', PY, f.qual, 'if %s: append ErrorNode(%s) below the slice' % (gathered_var, gathered_var), ok,
            'gathered nodes are not re-homed in one error node on the stack entry below the discarded slice')
     # the deletion must not be reachable with gathered nodes un-homed: the If has no else/return in between
-    rets = [n for n in walk_own(f.node) if isinstance(n, ast.Return)]
-    rep.ob('PAR-7', PY, f.qual, 'single return after the deletion', len(rets) == 1 and f.node.body[-1] is rets[0],
-           'early return in _stack_removal')
+    cfg = ctx.cfg(f)
+    dom = cfg.dominators()
+
+    def is_delete(a):
+        return (isinstance(a, ast.Delete) and isinstance(a.targets[0], ast.Subscript)) or \
+            (isinstance(a, ast.Assign) and isinstance(a.targets[0], ast.Subscript)
+             and isinstance(a.targets[0].slice, ast.Slice) and norm(a.value) == '[]')
+    dels = [n for n in cfg.nodes if n.kind == 'stmt' and is_delete(n.ast)]
+    rets = [n for n in cfg.nodes if n.kind == 'stmt' and isinstance(n.ast, ast.Return)]
+    ok = bool(rets) and bool(dels) and all(any(d in dom[r] for d in dels) for r in rets)
+    rep.ob('PAR-7', PY, f.qual, 'every return comes after the deletion of the slice', ok,
+           '_stack_removal can return without having removed the discarded stack entries')
 
 
 # ---------------------------------------------------------------------------
@@ -490,6 +499,27 @@ def par_9(ctx, rep):
     rep.minimum('PAR-9', 1)
 
 
+def _nonneg_range(it):
+    """range(n) / range(a, b) with a >= 0 / range(a, -1, -1): every value is a non-negative index"""
+    if not (isinstance(it, ast.Call) and norm(it.func) == 'range' and 1 <= len(it.args) <= 3):
+        return False
+    a = it.args
+    if len(a) == 1:
+        return True
+    def const(e):
+        if isinstance(e, ast.Constant) and isinstance(e.value, int):
+            return e.value
+        if isinstance(e, ast.UnaryOp) and isinstance(e.op, ast.USub) and isinstance(e.operand, ast.Constant):
+            return -e.operand.value
+        return None
+    if len(a) == 2:
+        return const(a[0]) is not None and const(a[0]) >= 0
+    step = const(a[2])
+    if step is not None and step < 0:
+        return const(a[1]) is not None and const(a[1]) >= -1        # counting down, stops before a[1] >= -1
+    return const(a[0]) is not None and const(a[0]) >= 0
+
+
 def _is_enumerate_index(ctx, f, name, depth=0):
     """name (local of f) is only ever bound to the index element of a for-loop over enumerate(...)."""
     if depth > 3:
@@ -506,13 +536,17 @@ def _is_enumerate_index(ctx, f, name, depth=0):
             binds.append(('other', n))
         elif isinstance(n, (ast.For, ast.AsyncFor)):
             t = n.target
-            if isinstance(t, ast.Tuple) and t.elts and isinstance(t.elts[0], ast.Name) and t.elts[0].id == name:
+            if isinstance(t, ast.Name) and t.id == name and _nonneg_range(n.iter):
+                binds.append(('range', n.iter))
+            elif isinstance(t, ast.Tuple) and t.elts and isinstance(t.elts[0], ast.Name) and t.elts[0].id == name:
                 binds.append(('for0', n.iter))
             elif any(isinstance(x, ast.Name) and x.id == name for x in ast.walk(t)):
                 binds.append(('other', n))
     if not binds:
         return False, '%s is never bound' % name
     for kind, v in binds:
+        if kind == 'range':
+            continue
         if kind == 'for0':
             if 'enumerate(' not in norm(v):
                 return False, 'loop index %s does not come from enumerate' % name
@@ -559,6 +593,34 @@ def _role(name):
     return {'typ': 'type', 'type_': 'type', 'string': 'value', 'token_type': 'type'}.get(n, n)
 
 
+def _is_top_of_stack(f, recv):
+    """``recv`` (the object whose .nodes is appended to) is the top stack entry: <stack>[-1] itself, or a local that is only
+    ever assigned <stack>[-1] or a fresh entry that the next statement pushes (t = StackNode(..); stack.append(t))."""
+    from ..model import xnorm, block_of
+    t = xnorm(f.node, recv)
+    if t in ('stack[-1]', 'self.stack[-1]'):
+        return True
+    if not isinstance(recv, ast.Name):
+        return False
+    assigns = [a for a in walk_own(f.node) if isinstance(a, ast.Assign)
+               and any(isinstance(x, ast.Name) and x.id == recv.id for x in a.targets)]
+    if not assigns:
+        return False
+    for a in assigns:
+        if len(a.targets) != 1:
+            return False
+        if xnorm(f.node, a.value) in ('stack[-1]', 'self.stack[-1]'):
+            continue
+        blk = block_of(a)
+        i = [b is a for b in blk].index(True) if blk else -1
+        nxt = blk[i + 1] if blk and i + 1 < len(blk) else None
+        pushed = isinstance(nxt, ast.Expr) and isinstance(nxt.value, ast.Call) and is_method_call(nxt.value, 'append') \
+            and xnorm(f.node, nxt.value.func.value) in ('stack', 'self.stack') and [norm(x) for x in nxt.value.args] == [recv.id]
+        if not (isinstance(a.value, ast.Call) and pushed):
+            return False
+    return True
+
+
 def par_1(ctx, rep):
     rep.rule('PAR-1', 'every token is consumed exactly once on every non-raising path of _add_token / error_recovery: '
                       'as one leaf appended to the top stack entry, by one re-feed through _add_token, or as one error '
@@ -580,7 +642,7 @@ def par_1(ctx, rep):
             leaf_var = st.targets[0].id
         ap = calls_in(appends[0], lambda c: is_method_call(c, 'append'))[0]
         rep.ob('PAR-1', BASE, f.qual, norm(ap), leaf_var is not None and [norm(a) for a in ap.args] == [leaf_var]
-               and norm(ap.func.value) == 'stack[-1].nodes',
+               and isinstance(ap.func.value, ast.Attribute) and _is_top_of_stack(f, ap.func.value.value),
                'the converted leaf is not what gets appended to the top stack entry')
         consume = {appends[0], recov[0]}
         p = find_path(cfg, [cfg.entry], lambda n: n is cfg.exit, lambda n: n in consume)
@@ -653,7 +715,7 @@ def par_1(ctx, rep):
             # the appended object is an error leaf built from the four token fields
             if isinstance(arg, ast.Name) and _is_error_leaf_of(f, arg.id, tokp):
                 direct[n] = ap
-                rep.ob('PAR-1', PY, f.qual, norm(ap), norm(ap.func.value) == 'self.stack[-1].nodes',
+                rep.ob('PAR-1', PY, f.qual, norm(ap), isinstance(ap.func.value, ast.Attribute) and _is_top_of_stack(f, ap.func.value.value),
                        'error leaf is not appended to the top stack entry')
     cond = {}        # test node -> label under which the helper consumed the token
     for n in cfg.nodes:
@@ -841,8 +903,8 @@ def pop_shape(ctx, rep):
                     p_ = getattr(n, '_parent', None)
                     eq = ('len(%s.nodes) == 1' % popped, '1 == len(%s.nodes)' % popped)
                     ne = ('len(%s.nodes) != 1' % popped, '1 != len(%s.nodes)' % popped, 'not len(%s.nodes) == 1' % popped)
-                    good = isinstance(p_, ast.If) and ((n in p_.body and norm(p_.test) in eq)
-                                                       or (n in p_.orelse and norm(p_.test) in ne))
+                    good = isinstance(p_, ast.If) and ((n in p_.body and xnorm(f.node, p_.test) in eq)
+                                                       or (n in p_.orelse and xnorm(f.node, p_.test) in ne))
                     if not good:
                         ok, detail = False, 'first child passed through without a test that it is the only child'
                 elif isinstance(val, ast.Call) and is_method_call(val, 'convert_node') \
@@ -883,7 +945,9 @@ def par_10(ctx, rep):
                'the recovery point can be a stack entry that is neither file_input nor suite: an error node would end up '
                'inside an expression or statement node')
     loops = [n for n in walk_own(cs.node) if isinstance(n, ast.For)]
-    ok = any('reversed(' in norm(lp.iter) and 'enumerate(' in norm(lp.iter) for lp in loops)
+    import re as _re
+    ok = any(('reversed(' in norm(lp.iter) and 'enumerate(' in norm(lp.iter))
+             or _re.fullmatch(r'range\(len\(\w+\) - 1, -1, -1\)', norm(lp.iter)) for lp in loops)
     rep.ob('PAR-10', PY, cs.qual, 'search runs from the top of the stack downwards', ok,
            'the recovery point is not the innermost open block')
 
@@ -959,6 +1023,10 @@ def par_11(ctx, rep):
                     continue
                 sites += 1
                 p = _param_origin(f, key)
+                if p is None and _token_field_index(f, key) == 1:
+                    # the lookup sits in the function that unpacks the token itself
+                    rep.ob('PAR-11', rel, f.qual, norm(n), True, reason='key is the value field of the token tuple, unmodified')
+                    continue
                 if p is None:
                     rep.ob('PAR-11', rel, f.qual, norm(n), False,
                            'the key %s is not the unmodified text parameter of %s' % (norm(key), f.qual))
@@ -989,6 +1057,9 @@ def par_11(ctx, rep):
                     rep.ob('PAR-11', r2, g.qual, norm(c), False,
                            'argument %s for the text parameter %r of %s is not the unmodified value field of the token'
                            % (norm(a) if a is not None else '<missing>', p, f.qual))
+                if not callers and f.name.startswith('_'):
+                    rep.skip('PAR-11', rel, f.qual, norm(n), 'private function without a call site in the parser modules (dead code)')
+                    continue
                 rep.ob('PAR-11', rel, f.qual, norm(n), bool(callers) and not bad,
                        'no call site of %s found in the parser modules' % f.qual if not callers else '',
                        reason='key is parameter %r; %d call site(s) pass the token value field' % (p, len(callers)))
